@@ -181,6 +181,10 @@ def mesh_validity(g):
         elif len(cols) > 2:
             bad.append(('edge-shared-by-more-than-two-columns', 'edge %r belongs to columns %r' % (sorted(e), sorted(c.name for c in cols))))
     have = set(frozenset(c.name for c in con.column) for con in g.connectionlist)
+    if len(have) != len(g.connectionlist):
+        pairs = [frozenset(c.name for c in con.column) for con in g.connectionlist]
+        twice = sorted(sorted(x) for x in set(p for p in pairs if pairs.count(p) > 1))
+        bad.append(('columns-joined-twice', '%d connections for %d joined pairs of columns; joined more than once: %r' % (len(pairs), len(have), twice[:4])))
     if need - have:
         bad.append(('missing-connections', 'columns sharing an edge without a connection: %r' % sorted(sorted(x) for x in need - have)[:4]))
     if have - need:
